@@ -12,7 +12,7 @@ from time import time
 
 from circuits.net.sockets import BUFSIZE
 
-from .constants import HTTP_STATUS_CODES, SERVER_VERSION
+from .constants import HTTP_STATUS_CODES, SERVER_PROTOCOL, SERVER_VERSION
 from .errors import httperror
 from .headers import Headers
 from .url import parse_url
@@ -293,7 +293,9 @@ class Response:
 
         self.cookie = self.request.cookie
 
-        self.protocol = 'HTTP/%d.%d' % self.request.protocol
+        # never announce a version we do not speak (nor echo an invalid one)
+        rp, sp = self.request.protocol, SERVER_PROTOCOL
+        self.protocol = 'HTTP/%d.%d' % (min(rp, sp) if rp[0] == sp[0] else sp)
 
     def __repr__(self):
         return '<Response %s %s (%d)>' % (
